@@ -26,6 +26,7 @@ func init() {
 			{"C12.R5", "q", "decrement paired with free of the same buffer", c12r5},
 			{"C12.R7", "q", "owned units in request-keyed maps", c12r7},
 			{"C12.R8", "q", "release keyed on the version sign: rejected revisions stay non-negative", c12r8},
+			{"C12.R9", "q", "size correction taken while the record is still compressed", c12r9},
 			{"C12.R6", "q", "event discovery: every event inside a contracted function", c12r6},
 		},
 	})
@@ -1119,5 +1120,39 @@ func c12r8(c *Ctx) {
 	}
 	if n == 0 {
 		c.undec("C12.R8", "store.Bucket.checkAndUpdateVerison", "no rejecting return found")
+	}
+}
+
+// c12r9: GetData.AddSize(DiffSizeAfterDecompressed()) must be evaluated before
+// Decompress() clears the compress flag (afterwards the difference is always 0).
+func c12r9(c *Ctx) {
+	const R = "C12.R9"
+	f := c.fn(R, "store.dataChunk.GetRecordByOffset")
+	if f == nil {
+		return
+	}
+	info := f.Info()
+	diffs := f.CallsTo("store.Payload.DiffSizeAfterDecompressed")
+	decs := f.CallsTo("store.Payload.Decompress")
+	if len(diffs) == 0 || len(decs) == 0 {
+		c.undec(R, f.Key, "size correction / decompress calls not found")
+		return
+	}
+	for i, d := range diffs {
+		// the Decompress on the same record
+		var dec *prog.Call
+		for j := range decs {
+			if prog.RootObj(info, decs[j].Expr.Fun) == prog.RootObj(info, d.Expr.Fun) {
+				dec = &decs[j]
+			}
+		}
+		key := f.Key + ": size correction #" + itoa(i+1) + " before Decompress"
+		if dec == nil {
+			c.viol(R, key, d.Pos(), "no Decompress of the same record follows the size correction")
+			continue
+		}
+		c.Paths++
+		c.check(f.CFG().Dominates(d.Expr, dec.Expr) && !f.CFG().ReachesWithout(dec.Expr, d.Expr, nil), R, key, d.Pos(), "DiffSizeAfterDecompressed ≺ Decompress",
+			"the GetData size correction is computed after Decompress() cleared the compress flag, so it is always 0: the record is accounted at its compressed capacity and released at its decompressed capacity, GetData.Size drifts negative for good")
 	}
 }
